@@ -349,6 +349,7 @@ def native_namespace(R=None):
           "is_prefix": lambda a, b: list(b[:len(a)]) == list(a),
           "seq": lambda x: list(x),
           "subset": lambda a, b: all(x in b for x in a),
+          "values": lambda xs: list(xs),
           "first": lambda xs, n: list(xs)[:n],
           "same_except": lambda d, *ks: True}
     for name, sf in R.specfns.items():
